@@ -5,14 +5,16 @@ passes without, all in the scratch worktree /tmp/seed-PROP), run the registered 
 import json, os, shutil, subprocess, sys
 prop, k = sys.argv[1], sys.argv[2]
 checks = sys.argv[3:] or [prop]
-src = f"/tmp/seedwork-{prop}/{k}"
+rnd = os.environ.get("SEEDROUND", "")
+src = f"/tmp/seedwork{rnd}-{prop}/{k}"
+knum = k if not rnd else str(int(k) + 3)
 r = subprocess.run(["/verif/tools/confirm_seed.sh", prop, k], capture_output=True, text=True)
 print(r.stdout.strip())
 if "CONFIRMED" not in r.stdout:
     sys.exit(1)
 r2 = subprocess.run(["/verif/tools/try_seed.sh", prop, src] + checks, capture_output=True, text=True)
 print(r2.stdout.strip())
-dst = f"/verif/seeded/{prop}-{k}"
+dst = f"/verif/seeded/{prop}-{knum}"
 os.makedirs(dst, exist_ok=True)
 for f in ["patch.diff", "demo_test.go", "ov.json", "run.sh", "result.txt"]:
     if os.path.exists(f"{src}/{f}"):
@@ -24,11 +26,11 @@ meta = json.load(open(f"{src}/meta.json"))
 viol = [l for l in r2.stdout.splitlines() if l.startswith("VIOLATION")]
 meta.update({
     "breaks_property": prop,
-    "confirmed_by": "tools/confirm_seed.sh: go build of the non-example packages OK with the change; baseline suite (codec, websocket, socket, utils, xfer) passes with the change; demo FAILS with the change and PASSES on the pristine worktree (scratch worktree /tmp/seed-%s at the pinned commit, removed afterwards)" % prop,
+    "confirmed_by": "tools/confirm_seed.sh: go build of the non-example packages OK with the change; baseline suite (codec, websocket, socket, utils, xfer) passes with the change; demo FAILS with the change and PASSES on the pristine worktree (scratch worktree /tmp/seed%s-%s, removed afterwards)" % (rnd, prop),
     "checks_run": ["./bin/govc check -property %s -tier quick" % c for c in checks],
     "detected": bool(viol),
     "detected_by": [v.split("obligation=")[1].split(" verdict")[0].strip('"') for v in viol if "obligation=" in v],
-    "note": "demo paths refer to the scratch worktree /tmp/seed-%s used at creation time" % prop,
+    "note": "demo paths refer to the scratch worktree /tmp/seed%s-%s used at creation time" % (rnd, prop),
 })
 json.dump(meta, open(f"{dst}/meta.json", "w"), indent=1)
 print("stored", dst, "detected" if viol else "MISSED")
